@@ -153,12 +153,15 @@ Definition NotifWf (n : notif) : Prop :=
   (exists rnd, fst (n_snap n) = [NRrdp; NSess (n_session n); NSer (n_serial n); NRand rnd; NSnap])
   /\ forall x, In x (n_deltas n) -> dref_wf (n_session n) (n_serial n) x.
 
-(** The files about to be written do not collide with different content: each target is
-    absent, empty (a crash between create and write) or already holds what is written. *)
-Definition slot_ok (f : fs) (p : path) (c : fcontent) : Prop :=
-  fs_file p f = None \/ fs_file p f = Some CEmpty \/ fs_file p f = Some c.
-Definition WritesSafe (f : fs) (old : option notif) (r : rrdp) : Prop :=
-  forall p c, In (p, c) (planned old r) -> slot_ok f p c.
+(** The files about to be written are not the ones the old notification names (they are new
+    paths: other serial, fresh random component). [create_file] empties an existing file
+    before it is rewritten, so rewriting a file that is still referenced would expose an
+    empty file for a moment. *)
+Definition PlannedFresh (old : option notif) (r : rrdp) : Prop :=
+  match old with
+  | Some n => forall p c d, In (p, c) (planned old r) -> ~ In (p, d) (refs n)
+  | None => True
+  end.
 
 (** The old notification is not ahead of the server state (it would be after a write with a
     stale [Arc<RepositoryContent>], candidate F11d). *)
